@@ -76,9 +76,15 @@ pub struct Expectation {
     pub role: Option<&'static str>,
 }
 
+/// certificates minted at run time for one cell: (trusted by rodbus, presented by the peer)
+static CERT_OVERRIDE: Mutex<Vec<(Cell, &'static str, &'static str)>> = Mutex::new(Vec::new());
+
 /// (certificate rodbus is configured to trust, certificate the peer presents); None = cell is not meaningful
 fn certs_for(c: &Cell) -> Option<(&'static str, &'static str)> {
     use CertKind::*;
+    if let Some(x) = CERT_OVERRIDE.lock().unwrap().iter().find(|x| x.0 == *c) {
+        return Some((x.1, x.2));
+    }
     Some(match (c.rodbus_is_server, c.self_signed, c.cert) {
         (true, false, Valid) => ("ca_a", "cli_operator"),
         (true, false, WrongAuthority) => ("ca_a", "cli_wrong_ca"),
@@ -620,12 +626,57 @@ pub fn all_cells(spawn: bool) -> Vec<Cell> {
     v
 }
 
+/// validity periods that begin or end within minutes of now (certificates minted at run time: a
+/// pre-minted one with its two UTCTime values replaced, signed again with the issuer's key)
+pub fn validity_phase() -> Stats {
+    let mut st = Stats::default();
+    let windows: [(&str, i64, i64, CertKind); 3] = [("valid-2min-either-side", -120, 120, CertKind::Valid), ("valid-in-2min", 120, 100_000, CertKind::NotYetValid), ("expired-2min-ago", -100_000, -120, CertKind::Expired)];
+    for rodbus_is_server in [true, false] {
+        for self_signed in [false, true] {
+            for (tag, nb, na, kind) in windows {
+                let (base, signer) = match (rodbus_is_server, self_signed) {
+                    (true, false) => ("cli_operator", "ca_a"),
+                    (true, true) => ("ss_client", "ss_client"),
+                    (false, false) => ("srv_valid", "ca_a"),
+                    (false, true) => ("ss_server", "ss_server"),
+                };
+                let minted = match mint_validity(base, signer, nb, na, tag) {
+                    Ok(n) => n,
+                    Err(e) => {
+                        st.violation(Violation { signature: "MACHINERY:mint".into(), summary: format!("{base} {tag}: {e}"), replay: json!({}) });
+                        continue;
+                    }
+                };
+                let minted: &'static str = Box::leak(minted.into_boxed_str());
+                let trust: &'static str = if self_signed { minted } else { "ca_a" };
+                // ctor 7 marks the run-time cells (no other cell uses it)
+                let cell = Cell { min13: false, self_signed, authz: false, rodbus_is_server, peer: PeerVersions::Both, cert: kind, spawn: false, ctor: 7 };
+                CERT_OVERRIDE.lock().unwrap().retain(|x| x.0 != cell);
+                CERT_OVERRIDE.lock().unwrap().push((cell, trust, minted));
+                let e = Expectation { admitted: kind == CertKind::Valid, role: None };
+                st.evaluations += 1;
+                st.class("validity-boundary");
+                match rt().block_on(run_cell(&cell)) {
+                    Err(err) => st.violation(Violation { signature: "MACHINERY:cell-error".into(), summary: format!("{cell:?} {tag}: {err}"), replay: json!({}) }),
+                    Ok(o) => {
+                        st.observe(&(rodbus_is_server, self_signed, tag, o.admitted));
+                        for (sig, desc) in judge(&cell, &e, &o) {
+                            st.violation(Violation { signature: format!("{sig}:validity-{tag}"), summary: format!("{} in {} mode, peer certificate {tag} (validity [now{nb:+} s, now{na:+} s]): {desc}", if rodbus_is_server { "server" } else { "client" }, if self_signed { "self-signed" } else { "authority" }), replay: json!({"kind": "c09-validity"}) });
+                        }
+                    }
+                }
+            }
+        }
+    }
+    st
+}
+
 pub fn check_c09(tier: &str) -> i32 {
     let mut rep = Report::new(
         "C09",
         tier,
         "exploration",
-        "the whole configuration grid {min version 1.2, 1.3} x {authority, self-signed} x {with, without authorization} x {rodbus is client, server} x peer offers {TLS1.2 only, TLS1.3 only, both} x peer certificate {valid, wrong authority, wrong name, expired, not yet valid, role-less, differently roled} = 336 cells over real loopback sockets: the rodbus endpoint is built with the unmodified public API, the peer is an independent rustls endpoint with explicit protocol versions and a permissive verifier, so the verdict is rodbus' alone; admission is judged by an answered Modbus request, the negotiated version by the peer, the role by an authorization handler; cells that are not meaningful are listed as n/a; per server configuration two more peers send Modbus bytes instead of / in the middle of the handshake; outside the grid: a certificate issued by the pinned self-signed certificate, certificates with the pinned certificate's subject / subject and key but other bytes, client chains in which an unrelated certificate carrying another role follows the client certificate, and client configurations built with the legacy constructor, without an expected server name and with an IP literal as the expected name; a client certificate whose role has a leading blank and a capital letter; one resuming rustls client against two servers of the same process that trust different authorities / pin different certificates. distinct = distinct (cell, observation) pairs",
+        "the whole configuration grid {min version 1.2, 1.3} x {authority, self-signed} x {with, without authorization} x {rodbus is client, server} x peer offers {TLS1.2 only, TLS1.3 only, both} x peer certificate {valid, wrong authority, wrong name, expired, not yet valid, role-less, differently roled} = 336 cells over real loopback sockets: the rodbus endpoint is built with the unmodified public API, the peer is an independent rustls endpoint with explicit protocol versions and a permissive verifier, so the verdict is rodbus' alone; admission is judged by an answered Modbus request, the negotiated version by the peer, the role by an authorization handler; cells that are not meaningful are listed as n/a; per server configuration two more peers send Modbus bytes instead of / in the middle of the handshake; outside the grid: a certificate issued by the pinned self-signed certificate, certificates with the pinned certificate's subject / subject and key but other bytes, client chains in which an unrelated certificate carrying another role follows the client certificate, and client configurations built with the legacy constructor, without an expected server name and with an IP literal as the expected name; a client certificate whose role has a leading blank and a capital letter; certificates whose validity begins or ends within two minutes of now (minted at run time); one resuming rustls client against two servers of the same process that trust different authorities / pin different certificates. distinct = distinct (cell, observation) pairs",
     );
     let thorough = rep.thorough();
     let mut cells = all_cells(false);
@@ -717,6 +768,8 @@ pub fn check_c09(tier: &str) -> i32 {
         }
     }
     rep.phase("grid", st, json!({}));
+    let st = validity_phase();
+    rep.phase("validity periods beginning / ending within two minutes of now", st, json!({}));
     // session resumption across two differently configured servers of one process
     {
         let mut st = Stats::default();
@@ -773,6 +826,9 @@ pub fn check_c09(tier: &str) -> i32 {
 }
 
 pub fn replay_c09(v: &serde_json::Value) -> Vec<(String, String)> {
+    if v["kind"] == "c09-validity" {
+        return validity_phase().violations_as_pairs();
+    }
     if v["kind"] == "c09-resumption" {
         let versions: PeerVersions = serde_json::from_value(v["versions"].clone()).unwrap();
         let self_signed = v["self_signed"].as_bool().unwrap();
